@@ -1060,6 +1060,12 @@ func (env *specEnv) call(x *SCall) SV {
 			}
 		}
 		if e.W.parseTypeName(base) == nil {
+			for _, pre := range []string{"func(", "*func(", "[]", "map[", "chan ", "<-chan ", "struct{", "interface{", "*[]", "*map["} {
+				if strings.HasPrefix(base, pre) {
+					// an unnamed type literal is not resolved by name: answering false here would make clauses vacuous
+					env.fail("typeis: unnamed type %q is not supported (compare x.dyntype with box(0, \"…\").dyntype)", name)
+				}
+			}
 			// a type that is not part of the loaded program: no value can have it as dynamic type
 			return SV{T: tFalse, Sort: "Bool"}
 		}
